@@ -101,7 +101,7 @@ const witnessPrefix = "witness-"
 
 // stallTokenTimeout is the token timeout of the environments in which a
 // non-acknowledging subscriber holds up publishers.
-func stallTokenTimeout() time.Duration { return 2 * time.Second * ev.Slow() }
+func stallTokenTimeout() time.Duration { return 3 * time.Second * ev.Slow() }
 
 func runCase(c *Case) (*verdict, map[string]int) {
 	stats := map[string]int{}
@@ -114,6 +114,11 @@ func runCase(c *Case) (*verdict, map[string]int) {
 		if c.Env == "kill-timeout" {
 			m.KillTimeout = time.Nanosecond
 		}
+		// a hostile client that subscribed to the witness stream, stopped
+		// acknowledging and is itself waiting for the backend can only be removed by
+		// the token timeout of its dequeuer (by design); that timeout has to lie well
+		// inside the liveness ceiling in every environment
+		m.ClientTokenTimeout = stallTokenTimeout()
 		if c.Env == "slow-subscriber" || c.Env == "stalled-publisher" {
 			// small queue and window: a subscriber that stops acknowledging makes
 			// publishers wait in the backend (documented) until it goes away -
@@ -124,7 +129,6 @@ func runCase(c *Case) (*verdict, map[string]int) {
 			// inside the liveness ceiling.
 			m.SessionQueueSize = 4
 			m.ClientInflightMessages = 2
-			m.ClientTokenTimeout = stallTokenTimeout()
 		}
 	})
 	shut := false
@@ -319,7 +323,11 @@ func runCase(c *Case) (*verdict, map[string]int) {
 			p.Pump()
 		}
 		if breakAt >= 0 {
-			if !b.WaitClosed(bconn) || !p.WaitEOF(ev.Ceiling()) {
+			// keep draining (and acknowledging) what the broker sends while waiting:
+			// the frame that breaks the protocol may sit behind a PUBLISH whose
+			// processing waits for the backend, which in turn may wait for room in
+			// this very connection's queue
+			if !p.WaitEOF(ev.Ceiling()) || !b.WaitClosed(bconn) {
 				results[i].v = failf(b, "hostile/not-closed", "hostile connection %d sent a frame that breaks the protocol (frame %d: %s) but its connection was not closed", i, breakAt, describe(frames[breakAt]))
 			}
 			return
@@ -647,7 +655,7 @@ func nontrivial(c *Case) bool {
 
 func TestC14(t *testing.T) {
 	run := ev.Start("C14", "exploration")
-	run.Rule("hostile scenarios: 1-5 hostile connections (sequential or concurrent, optionally sharing client ids) each sending up to 15 frames: packets a client may send with hostile field values (wildcard / NUL-bearing / empty / 65535-byte topics and filters, arbitrary ids), packets that are out of protocol for a client, mutated and truncated encodings, garbage and oversized length declarations, optionally with a small engine read limit; environments: none, KillTimeout=1ns (takeover fails in Setup), a subscriber (queue 4, window 2) that never acknowledges the witness stream and leaves once a publisher is stuck behind it, such a subscriber that also keeps publishing and never leaves (only the broker's token timeout, 2 s here, can end that stall), MemoryBackend.Close racing with the connections, the n-th call of one backend hook failing. Meanwhile a witness publisher streams numbered QoS 1 messages to a witness subscribed to '#' and one subscribed to a private topic. Oracle: the process survives; a connection that sent a protocol-breaking frame is closed; a connection that sent only admissible packets still answers PINGREQ; both witnesses receive every numbered message exactly once in order and stay connected; Terminate is called exactly once per successful Setup; Closed() fires for every connection; no library goroutine remains. non-trivial = some frame must be rejected, a boundary-sized field, or a hostile environment; distinct by case")
+	run.Rule("hostile scenarios: 1-5 hostile connections (sequential or concurrent, optionally sharing client ids) each sending up to 15 frames: packets a client may send with hostile field values (wildcard / NUL-bearing / empty / 65535-byte topics and filters, arbitrary ids), packets that are out of protocol for a client, mutated and truncated encodings, garbage and oversized length declarations, optionally with a small engine read limit; environments: none, KillTimeout=1ns (takeover fails in Setup), a subscriber (queue 4, window 2) that never acknowledges the witness stream and leaves once a publisher is stuck behind it, such a subscriber that also keeps publishing and never leaves (only the broker's token timeout, 3 s in all C14 environments, can end that stall), MemoryBackend.Close racing with the connections, the n-th call of one backend hook failing. Meanwhile a witness publisher streams numbered QoS 1 messages to a witness subscribed to '#' and one subscribed to a private topic. Oracle: the process survives; a connection that sent a protocol-breaking frame is closed; a connection that sent only admissible packets still answers PINGREQ; both witnesses receive every numbered message exactly once in order and stay connected; Terminate is called exactly once per successful Setup; Closed() fires for every connection; no library goroutine remains. non-trivial = some frame must be rejected, a boundary-sized field, or a hostile environment; distinct by case")
 	run.Assume("hostile peers' inbound data is drained (a subscriber that stops reading stalls the memory backend by documented design)", "at most 9 unreleased QoS 2 publishes and 60 publishes per hostile connection (flow control and the own-queue limit are documented behaviour)")
 	defer run.Finish(t)
 
